@@ -14,7 +14,10 @@ from uuid import UUID
 
 try:
     from crosshair.util import IgnoreAttempt
+    UNDER_CROSSHAIR = True
 except Exception:  # plain replay without crosshair
+    UNDER_CROSSHAIR = False
+
     class IgnoreAttempt(BaseException):
         pass
 
@@ -36,6 +39,29 @@ from th import PathHolder  # noqa: F401
 _RANDOM_MOD = sys.modules["d42.generation._random"]
 _GEN_MOD = sys.modules["d42.generation._generator"]
 _REAL_RANDOM = _RANDOM_MOD.random
+
+
+def isclose_py(a, b, *, rel_tol=1e-09, abs_tol=0.0):
+    """math.isclose as documented (and as implemented in CPython's mathmodule.c)."""
+    if a == b:
+        return True
+    if a == float("inf") or a == float("-inf") or b == float("inf") or b == float("-inf"):
+        return False
+    diff = abs(b - a)
+    return ((diff <= abs(rel_tol * b)) or (diff <= abs(rel_tol * a))) or (diff <= abs_tol)
+
+
+def isfinite_py(x):
+    return x == x and x != float("inf") and x != float("-inf")
+
+
+_VAL_MOD = sys.modules["d42.validation._validator"]
+if UNDER_CROSSHAIR:
+    # C-level math functions would force the solver to pick concrete floats; during symbolic
+    # execution they are replaced by their documented algorithms (replay uses the real ones).
+    _VAL_MOD.isclose = isclose_py
+    if hasattr(_VAL_MOD, "isfinite"):
+        _VAL_MOD.isfinite = isfinite_py
 
 
 def assume(cond):
@@ -64,7 +90,9 @@ class TapeRandom:
         self.floats = list(floats)
         self.i = self.c = self.f = 0
         self.draws = 0
+        self.n_int = 0
         self.at_low = self.at_high = 0
+        self.first_char = False
 
     def _next_int(self):
         if self.i >= len(self.ints):
@@ -80,7 +108,12 @@ class TapeRandom:
         if a > b:
             raise ValueError("empty range in randrange(%r, %r)" % (0, 0))
         self.draws += 1
+        self.n_int += 1
         d = self._next_int()
+        if a == b:
+            self.at_low += 1
+            self.at_high += 1
+            return a
         if d <= a:
             self.at_low += 1
             return a
@@ -94,6 +127,8 @@ class TapeRandom:
         if n == 0:
             raise IndexError("Cannot choose from an empty sequence")
         self.draws += 1
+        if isinstance(seq, str) and self.first_char:
+            return seq[0]
         if isinstance(seq, str) and self.chars:
             if self.c >= len(self.chars):
                 raise IgnoreAttempt("char tape exhausted")
@@ -102,7 +137,19 @@ class TapeRandom:
             if len(ch) != 1 or ch not in seq:
                 raise IgnoreAttempt("char not in alphabet")
             return ch
-        return seq[clamp(self._next_int(), 0, n - 1)]
+        d = self._next_int()
+        self.n_int += 1
+        if n == 1:
+            self.at_low += 1
+            self.at_high += 1
+            return seq[0]
+        if d <= 0:
+            self.at_low += 1
+            return seq[0]
+        if d >= n - 1:
+            self.at_high += 1
+            return seq[n - 1]
+        return seq[d]
 
     def uniform(self, a, b):
         if self.f >= len(self.floats):
@@ -643,3 +690,141 @@ _SUBST_VALIDATOR = SubstitutorValidator()
 def validate_subst(S, v):
     """The validator used inside substitution (a Validator subclass)."""
     return S.__accept__(_SUBST_VALIDATOR, value=v)
+
+
+# --------------------------------------------------------------------------- C01: generation
+
+SMALL_DEFAULTS = {"STR_LEN_MAX": 3, "LIST_LEN_MAX": 2, "BYTES_LEN_MAX": 2}
+
+
+class gen_env:
+    """with gen_env(ints, chars, floats, small=True) as t: v = fake(S)
+    Installs the TapeRandom stub and (small=True) scales the generator's default length caps down
+    to SMALL_DEFAULTS so that loops over drawn lengths stay short.  Everything is restored."""
+
+    def __init__(self, ints=(), chars=(), floats=(), small=True, first_char=False):
+        self.t = TapeRandom(ints, chars, floats)
+        self.t.first_char = first_char
+        self.small = small
+        self.saved = {}
+
+    def __enter__(self):
+        _RANDOM_MOD.random = self.t
+        if self.small:
+            for k, v in SMALL_DEFAULTS.items():
+                self.saved[k] = getattr(_GEN_MOD, k)
+                setattr(_GEN_MOD, k, v)
+        return self.t
+
+    def __exit__(self, *exc):
+        _RANDOM_MOD.random = _REAL_RANDOM
+        for k, v in self.saved.items():
+            setattr(_GEN_MOD, k, v)
+        return False
+
+
+def _len_window(lens):
+    """(lo, hi) admitted by a len form; hi None = unbounded. None if empty."""
+    ln, mn, mx = lens
+    if ln is not Nil:
+        if ln < 0:
+            return None
+        return (ln, ln)
+    lo = 0
+    if mn is not Nil and mn > 0:
+        lo = mn
+    if mx is not Nil:
+        if mx < lo:
+            return None
+        return (lo, mx)
+    return (lo, None)
+
+
+def satisfiable(spec):
+    """Conservative SUFFICIENT condition for 'admits at least one conforming value' (and for every
+    alternative / element the generator may pick).  Doubtful cases count as unsatisfiable, which can
+    only make the C01/C04 checks quieter."""
+    k = spec[0]
+    if k in ("none", "bool", "bytes", "uuid4", "datetime", "date"):
+        return True
+    if k == "int":
+        if spec[1] is not Nil:
+            return True
+        if spec[2] is not Nil and spec[3] is not Nil:
+            return spec[2] <= spec[3]
+        return True
+    if k == "float":
+        for p in (spec[1], spec[2], spec[3]):
+            if p is not Nil and p != p:
+                return False
+        if spec[1] is not Nil:
+            return True
+        if spec[2] is not Nil and spec[3] is not Nil:
+            return spec[2] <= spec[3]
+        return True
+    if k == "str":
+        if spec[1] is not Nil:
+            return True
+        if spec[5] is not Nil:
+            return True          # patterns come from a menu of satisfiable patterns
+        w = _len_window(spec[2])
+        if w is None:
+            return False
+        lo, hi = w
+        sub = spec[4] if spec[4] is not Nil else ""
+        al = spec[3]
+        if al is not Nil:
+            for ch in sub:
+                if ch not in al:
+                    return False
+        m = lo if lo > len(sub) else len(sub)
+        if hi is not None and m > hi:
+            return False
+        if m > len(sub) and al is not Nil and len(al) == 0:
+            return False
+        return True
+    if k == "list":
+        return _len_window(spec[2]) is not None
+    if k == "list_t":
+        return _len_window(spec[2]) is not None and satisfiable(spec[1])
+    if k == "list_e":
+        w = _len_window(spec[2])
+        if w is None:
+            return False
+        n = 0
+        for e in spec[1]:
+            if e is not ...:
+                n += 1
+                if not satisfiable(e):
+                    return False
+        if n == len(spec[1]):
+            return w[0] <= n and (w[1] is None or n <= w[1])
+        return w[1] is None or n <= w[1]
+    if k == "dict":
+        if spec[1] is None:
+            return True
+        for key, opt, sub in spec[1]:
+            if not satisfiable(sub):
+                return False
+        return True
+    if k == "any":
+        if spec[1] is None:
+            return True
+        for a in spec[1]:
+            if not satisfiable(a):
+                return False
+        return True
+    if k == "alias":
+        return satisfiable(spec[2])
+    raise AssertionError("bad spec")
+
+
+def draw_tag(t):
+    n = t.n_int
+    if n == 0:
+        return "nodraw"
+    if t.at_high == n:
+        return "allhigh"
+    if t.at_low == n:
+        return "alllow"
+    return "mixed"
